@@ -20,12 +20,13 @@ PROPS = {
     ),
     "C02": dict(
         verus=[("emf_value", {})],
+        kani=["emf_num"],
         technique="Verus function contracts on the extracted real write_observation / write_metric_value / write_metric over a token view of the buffers",
         level_text="Deductive proof (Verus/z3), for all observation lists of any length with NaN/inf/zero-occurrence entries at any position and any multiplicity, that the metric-value fragment "
                    "appended to the EMF record is `,\"name\":` followed by one numeral or by aligned, non-empty, properly comma-separated Values/Counts arrays, that a skipped metric leaves no trace "
                    "(truncate restores the buffer), and that the declaration list gets its comma iff non-empty. Document assembly in finish() is not reached.",
         level_note="Trusted: token view of PrefixedStringBuf (6 one-line String wrappers), write_float appends one numeral of a finite double (dtoa), json_string emits one JSON string token (serde_json), "
-                   "clamp_to_finite contract (proved separately by Kani when the kani group runs), rewrites R1/R2/R3/R6, termination of the observation loop, Verus + z3.",
+                   "clamp_to_finite contract (assumed in the Verus unit, PROVED by the Kani harness clamp_to_finite_all_doubles of this same check for all 2^64 doubles), rewrites R1/R2/R3/R6, termination of the observation loop, Verus + z3.",
         explanation="metric-value fragment of the EMF formatter against a token grammar",
         assumptions=[
             "PrefixedStringBuf methods behave as their token-level specs (units/emf_value.py prelude)",
@@ -81,6 +82,7 @@ PROPS = {
     ),
     "C03": dict(
         verus=[("emf_value", {}, ["write_observation", "write_metric_value", "write_metric"])],
+        kani=["emf_num"],
         technique="Verus function contracts on the extracted real write_observation / write_metric (payload-carrying tokens): counts, skip rule and metric declaration",
         level_text="Deductive proof (Verus/z3), for every observation and multiplicity, that an unsigned observation is written as that integer with count = multiplicity, a float as its clamp with count = multiplicity, "
                    "a repeated one with count = occurrences x multiplicity saturating at u64::MAX, NaN exactly skipped; that values and counts stay aligned; and that the metric declaration carries the name, "
